@@ -197,6 +197,26 @@ type c11Hist struct {
 	// host_sign_out, which is what its cookie jar goes by). Empty = the proxy sees the browser's host.
 	ProxyHost string `json:"host_header_seen_by_proxy,omitempty"`
 	Fault     string `json:"redis_del_fault,omitempty"`
+	// Users: one entry per consecutive login in the SAME browser without a sign-out in between (user index); the last login is the
+	// one the requests / refreshes / sign-out belong to. Empty = one login. EarlierPads: ID-token pad of each earlier login.
+	Users       []int `json:"logins_as_user,omitempty"`
+	EarlierPads []int `json:"id_token_pad_of_earlier_logins,omitempty"`
+}
+
+func (h c11Hist) loginClass() string {
+	if len(h.Users) < 2 {
+		return "1"
+	}
+	same := true
+	for _, u := range h.Users {
+		if u != h.Users[0] {
+			same = false
+		}
+	}
+	if same {
+		return fmt.Sprintf("%d-same-user", len(h.Users))
+	}
+	return fmt.Sprintf("%d-different-users", len(h.Users))
 }
 
 func (h c11Hist) refreshClass() string {
@@ -225,8 +245,15 @@ func c11Histories(run *vfRun, cfg *c11Cfg, ci int) []c11Hist {
 	rng := rand.New(rand.NewSource(run.Env.Seed*9973 + int64(ci)*131))
 	var out []c11Hist
 	n := 0
+	var users []int // consecutive logins of the histories made next (nil = one login)
 	mk := func(p0 int, k int, refreshAt []int, dir []int) {
 		h := c11Hist{K: k, RefreshAt: refreshAt}
+		if len(users) > 1 {
+			h.Users = users
+			for i := 0; i < len(users)-1; i++ {
+				h.EarlierPads = append(h.EarlierPads, c11PadClasses[(p0+1+2*i)%4]+rng.Intn(40))
+			}
+		}
 		cls := p0
 		h.Pads = []int{c11PadClasses[cls] + rng.Intn(40)}
 		for _, d := range dir {
@@ -259,7 +286,32 @@ func c11Histories(run *vfRun, cfg *c11Cfg, ci int) []c11Hist {
 			mk(p0, 1, []int{0, 1}, []int{+3, -3})
 		}
 	}
+	// several consecutive logins in one browser without a sign-out in between: as different users and as the same user
+	for p0 := 0; p0 < 4; p0++ {
+		users = []int{0, 1}
+		mk(p0, 1, nil, nil)
+		users = []int{0, 1, 2}
+		mk(p0, 2, []int{1}, []int{+1})
+		users = []int{0, 0}
+		mk(p0, 0, nil, nil)
+		users = []int{0, 1, 0}
+		mk(p0, 1, []int{1}, []int{-1}) // back to the first user, refresh on the sign-out request
+		if run.Env.Thorough() {
+			users = []int{0, 1}
+			mk(p0, 2, []int{0, 2}, []int{+2, -1})
+			users = []int{1, 0, 1}
+			mk(p0, 0, nil, nil)
+			users = []int{0, 0, 1}
+			mk(p0, 3, []int{1}, []int{+1})
+		}
+	}
+	users = nil
 	for k := 0; k < run.Env.Pick(12, 160); k++ {
+		if k%5 == 4 {
+			users = [][]int{{0, 1}, {0, 1, 2}, {0, 0}, {1, 0, 1}}[rng.Intn(4)]
+		} else {
+			users = nil
+		}
 		kk := rng.Intn(4)
 		var ra, dir []int
 		for r := 0; r <= kk; r++ {
